@@ -26,6 +26,15 @@ Every atom checks, on the logical state alone, the conditions under which the co
 (`Atom.guard`); an atom whose guard fails emits nothing. In the programs generated below the
 guards always hold (the correspondence run would show a missing event otherwise); they make
 every safety argument local to one atom.
+
+For the power-loss argument (C10) the state carries durability bookkeeping, all of it ghost:
+`curDirty` / `curDurEntry` (the active WAL has unsynced records / a directory entry that no fsync
+of the directory has covered yet), `mdirty` / `tsetD` (the MANIFEST has an unsynced change set /
+the table set as of its last fsync), `kdir` (a directory fsync has covered every compaction
+output), `pendU` (WALs unlinked since the last directory fsync). The guards over them state the
+order the code enforces: an acknowledgement (SyncWrites) follows the msync of the WAL, a MANIFEST
+record follows the msync of the tables it names and a directory fsync, change sets are appended
+and fsynced one at a time (`appendLock`), table ids are fresh (`tsetD` lists none of them).
 -/
 namespace Badger
 
@@ -153,7 +162,9 @@ def Atom.guard (s : PState) : Atom → Bool
     (aget id s.tsetD).isNone
   | .kmset =>
     !s.kins.isEmpty && s.kout.all (fun o => o.stage == 3 && (aget o.id s.tset).isNone) &&
-    !s.mdirty && s.kdir && s.pendU.isEmpty &&
+    !s.mdirty && s.kdir &&
+    -- (modelling restriction) … nor while the deletion of that WAL is not yet durable
+    s.pendU.all (fun x => !s.kins.contains x.2) &&
     nodupNat (s.kout.map (·.id)) && nodupNat s.kins &&
     s.kins.all (fun id => (aget id s.tset).isSome) && (applyMSet s.tset (kmsetChanges s)).isSome &&
     -- (modelling restriction) a table is not compacted away while the WAL it was flushed from
